@@ -373,7 +373,9 @@ Section Resolve.
     match r_form r with
     | FInst t =>
         let i := IObj (r_id r) 0 0 t in
-        (with_p rs (set_instance (rs_p rs) h d i), ROkV (AInst i))
+        let p1 := set_instance (rs_p rs) h d i in
+        let p2 := fold_left (fun p a => share_instance p h a i) (aliases_of (p_descs p1) d) p1 in
+        (with_p rs p2, ROkV (AInst i))
     | _ =>
         let '(inobj, ps) := reg_params r in
         match args_loop rs h inobj ps [] with
